@@ -128,6 +128,7 @@ package memory
 //@   requires wf(m)
 //@   requires[ip_pushed] len(m.fp) >= 2 ==> topLE(m) < m.sp
 //@   ensures[none] len(m.fp) < 2 ==> result == nil
+//@   ensures[slot] len(m.fp) >= 2 ==> result != nil && *result == m.stack[topLE(m)]
 //
 //@ func (*Type).ResetSP [C18,C09]
 //@   requires m != nil
